@@ -1164,6 +1164,23 @@ func runC15(c *Ctx) {
 		}
 		_ = ctor
 	}
+	// exhaustion is reported to every caller: the source stays open (a read after EOF reports EOF
+	// again; a read after Close reports "file already closed", which is not ErrNoTargets)
+	{
+		const rSrc = "a targeter never closes the reader it was given: after the first end of input every later caller must get ErrNoTargets too"
+		var closes []ssa.Instruction
+		for _, fn := range c.P.RepoFuncs("lib") {
+			if fn.Pos().IsValid() && !strings.HasSuffix(c.P.Fset.Position(fn.Pos()).Filename, "targets.go") {
+				continue
+			}
+			eachInstr(fn, func(i ssa.Instruction) {
+				if ci, ok := i.(ssa.CallInstruction); ok && ci.Common().IsInvoke() && ci.Common().Method.Name() == "Close" {
+					closes = append(closes, i)
+				}
+			})
+		}
+		c.Check(len(closes) == 0, "source-stays-open:lib.targeters", rSrc, "no Close call in the targeters", "the targets source is closed by the targeter: callers arriving after exhaustion get a read error instead of ErrNoTargets", c.atsOr(closes, c.P.Func("lib", "NewJSONTargeter"))...)
+	}
 	// resolver rotation shares the idiom (anchor of C15 and C18)
 	c15ResolverRotation(c)
 	// no target may alias the shared defaults (C14's borrow rule): concurrent callers would write one backing array
